@@ -106,7 +106,7 @@ def job_acond(payload):
             r_kind = ("expr", str(ac))
             hist["expr"] += 1
             v = 6 + idx % 5
-            rc = call_real(lambda: pt.compileTeal(pt.Return(ac), pt.Mode.Application, version=v))
+            rc = call_real(lambda: pt.compileTeal(pt.Return(ac), pt.Mode.Application, version=v, assembleConstants=bool((idx // 5) % 2)))
             if rc[0] != "ok":
                 issues.append({"level": "model", "part": "approval_cond expression does not compile", "mc": mcd, "real": rc[1:]})
                 continue
@@ -167,7 +167,7 @@ def job_bare(payload):
         if sk[0] != "ok" or sk[1] != mb[1]:
             issues.append({"level": "model", "part": "approval_construction skeleton", "bare": bare, "real": repr(sk[1])[:600], "model": repr(mb[1])[:600]})
         v = 6 + idx % 5
-        rt = call_real(lambda: pt.compileTeal(rc[1], pt.Mode.Application, version=v))
+        rt = call_real(lambda: pt.compileTeal(rc[1], pt.Mode.Application, version=v, assembleConstants=bool((idx // 5) % 2)))
         if rt[0] != "ok":
             issues.append({"level": "model", "part": "bare-call Cond does not compile", "bare": bare, "real": rt[1:]})
             continue
@@ -221,7 +221,7 @@ def check_program(pt, proc, cfg, combos, extras=(0, 1, 2), stop_early=False):
             issues.append({"level": "spec", "part": "Coq allowed vs python oracle", "cfg": cfg, "call": [lab, oc, appid],
                            "coq": L.p_opt(row[1]), "python": L.oracle_allowed(cfg, args, oc, appid)})
     for version, opt in combos:
-        rc = call_real(lambda: router.compile_program(version=version, optimize=L.optimize_of(pt, opt)))
+        rc = call_real(lambda: L.compile_router(pt, router, version, opt))
         stats["compiles"] += 1
         base = {"cfg": cfg, "version": version, "opt": opt}
         if rc[0] != "ok":
@@ -435,7 +435,7 @@ def violates(pt, proc, cfg, version, opt, program, args, oc, appid):
     rb = call_real(L.build_router, pt, cfg)
     if rb[0] != "ok":
         return False, ("build", rb[1])
-    rc = call_real(lambda: rb[1].compile_program(version=version, optimize=L.optimize_of(pt, opt)))
+    rc = call_real(lambda: L.compile_router(pt, rb[1], version, opt))
     if rc[0] != "ok":
         return False, ("compile", rc[1])
     approval, clear, _ = rc[1]
@@ -476,6 +476,11 @@ def shrink(pt, proc, issue):
             b2, i2 = test(cfg, d2, opt)
             if b2:
                 desc, info, progress = d2, i2, True
+        if not progress and opt is not None and (opt[0] is not None or opt[1] is not None):
+            o2 = (None, None, True) if L.asm_of(opt) else None
+            b2, i2 = test(cfg, desc, o2)
+            if b2:
+                opt, info, progress = o2, i2, True
         if not progress and opt is not None:
             b2, i2 = test(cfg, desc, None)
             if b2:
@@ -488,8 +493,10 @@ def shrink(pt, proc, issue):
 
 def describe(rep):
     exp = rep["expected_handler"]
-    return "%s program at v%d: call args=%s OnCompletion=%d ApplicationID=%d %s but observed %s" % (
-        rep["program"], rep["version"], rep["args"], rep["oc"], rep["appid"],
+    o = rep.get("opt")
+    opts = "" if o is None else " (scratch_slots=%s, frame_pointers=%s, assemble_constants=%s)" % (o[0], o[1], L.asm_of(o))
+    return "%s program at v%d%s: call args=%s OnCompletion=%d ApplicationID=%d %s but observed %s" % (
+        rep["program"], rep["version"], opts, rep["args"], rep["oc"], rep["appid"],
         ("must run handler %s only" % L.handler_tag(exp)) if exp is not None else "must be rejected", rep["observed"])
 
 
@@ -620,21 +627,29 @@ def main(argv):
     cfgs.append(({"bare": {}, "clear": None, "methods": [{"name": "m%d" % k, "hid": k, "shape": "v0", "mc": L.gen_mc(rng), "via": "decorator"} for k in range(9)]}, "hand"))
     cfgs.append(({"bare": {}, "clear": None, "methods": []}, "hand"))
     cfgs.append(({"bare": {}, "clear": "exprret", "methods": [], "explicit_bare": True}, "hand"))
-    all_opts = [None, (True, None), (False, False), (None, True), (True, True)]
+    for c in L.directed_oc_cfgs():
+        cfgs.append((c, "directed"))
+    # option triples: (scratch_slots, frame_pointers, assemble_constants)
+    all_opts = [None, (True, None, False), (False, False, True), (None, True, False), (True, True, True), (None, None, True)]
     items = []
     src_hist = {}
     for k, (cfg, src) in enumerate(cfgs):
         src_hist[src] = src_hist.get(src, 0) + 1
-        if thorough or src in ("corpus", "hand"):
+        if src == "directed":
+            # every version with assembled constants, and plain
+            combos = [(v, (None, None, True)) for v in range(6, 11)] + [(6 + k % 5, None), (8 + k % 3, (True, True, True))]
+        elif thorough or src in ("corpus", "hand"):
             combos = [(v, all_opts[(k + v) % len(all_opts)]) for v in range(6, 11)]
             if src == "hand":
-                combos += [(v, None) for v in range(6, 11)]
+                combos += [(v, None) for v in range(6, 11)] + [(v, (None, None, True)) for v in range(6, 11)]
+            if thorough:
+                combos += [(6 + (k + 2) % 5, (None, None, True))]
         elif src == "small":
-            combos = [(6 + k % 5, None if k % 3 else all_opts[k % 5])]
+            combos = [(6 + k % 5, None if k % 3 else all_opts[k % 6])]
         else:
             vs = rng.sample(range(6, 11), 2)
             combos = [(v, rng.choice(all_opts)) for v in vs]
-        combos = [(v, (o if (o is None or v >= 8 or o[1] in (None, False)) else (o[0], None))) for v, o in combos]
+        combos = [(v, (o if (o is None or v >= 8 or o[1] in (None, False)) else (o[0], None, o[2]))) for v, o in combos]
         extras = (0, 1, 2) if (thorough or src != "small") else (0, 1)
         items.append((cfg, combos, extras))
     order = list(range(len(items)))
@@ -765,7 +780,7 @@ def main(argv):
         rule="condition level: all 4^6 MethodConfig tuples (constructor acceptance, is_never, approval_cond form + text + truth table on the AVM for OnCompletion 0..5 x ApplicationID 0/77) "
              "and all %d valid BareCallActions tables (skeleton + execution); registration: decorator keyword combinations, never-executed, duplicate signature, colliding selectors, malformed bare actions; "
              "program level: %d router configurations (corpus, 256 exhaustive-small, random 0..4 methods x 0..5 bare actions x clear_state, hand-picked) compiled with Router.compile_program at versions 6..10 "
-             "with/without OptimizeOptions, AST skeleton vs model program, approval+clear TEAL executed on the extracted AVM for first-argument in registered selectors + unknown + 3-byte prefix + 5-byte extension + none, "
+             "with/without OptimizeOptions and assemble_constants (a directed set mentioning every OnCompletion as bare action and as method entry is compiled with assembled constants at every version), AST skeleton vs model program, approval+clear TEAL executed on the extracted AVM for first-argument in registered selectors + unknown + 3-byte prefix + 5-byte extension + none, "
              "0..2 extra arguments, OnCompletion 0..5, ApplicationID 0/77 - compared with the model's dispatch (exact) and the independent oracle; "
              "a case is distinct by (configuration, version, optimize) resp. tuple/table; non-trivial = something is registered" % (len(tables), len(items)),
         trusted_base=[
